@@ -123,6 +123,44 @@ def run(rep):
         chains = [n for n in tab.find(fn_["body"], "MethodCall") if n.get("method") == "map" and any(x.get("member") == "variants" for x in tab.find(n["recv"], "Field"))]
         bad = [n for c in chains for n in tab.find(c["recv"], "MethodCall") if n.get("method") in ("filter", "skip", "take", "rev", "filter_map", "step_by")]
         rep.ob("R4-derived-enum-every-variant", fn_["name"], bool(chains) and not bad, GEN, fn_.get("l", 0), "every variant must get an arm (variants.iter().map(..) without filter/skip)")
+    # ---- R6: an encoder writes on every path -----------------------------------------------------------------------------------
+    # The decoder of a type reads unconditionally (it cannot know the value in advance), so an encoder that returns the buffer
+    # untouched for some values (`if self.len == 0 { return buffer; }`) drops bytes the decoder expects: the length prefix of an empty
+    # Bytes/String is missing and every following field is shifted. All `abi_encode` bodies in the std library are scanned.
+    import os
+    from lib.common import REPO
+    n6 = 0
+    for root, _d, files in os.walk(os.path.join(REPO, "sway-lib-std/src")):
+        for fn_ in sorted(files):
+            if not fn_.endswith(".sw"):
+                continue
+            rel = os.path.relpath(os.path.join(root, fn_), REPO)
+            tk = sw.load(rel)
+            T = [t[1] for t in tk]
+            for tr, ty, s_, e_, line in sw.impls(tk):
+                if tr != "AbiEncode":
+                    continue
+                fs = sw.fns(tk, s_, e_)
+                if "abi_encode" not in fs:
+                    continue
+                bs, be, fl = fs["abi_encode"]
+                # parameter name of the buffer
+                j = bs
+                while not (T[j] == "fn" and T[j + 1] == "abi_encode"):
+                    j -= 1
+                po = T.index("(", j)
+                pc = sw.match_brace(tk, po, "(", ")")
+                ptoks = T[po + 1:pc]
+                bufs = [ptoks[k - 1] for k in range(1, len(ptoks)) if ptoks[k] == ":" and k + 1 < len(ptoks) and ptoks[k + 1] == "Buffer"]
+                if not bufs:
+                    continue
+                buf = bufs[0]
+                n6 += 1
+                bad = [tk[k][2] for k in range(bs, be - 2) if T[k] == "return" and T[k + 1] == buf and T[k + 2] == ";"]
+                rep.ob("R6-encoder-writes-on-every-path", f"AbiEncode for {ty} ({rel.split('/')[-1]})", not bad, rel, bad[0] if bad else fl,
+                       f"abi_encode of {ty} returns the buffer unchanged on some path (`return {buf};`): the decoder reads unconditionally, so for those values the "
+                       "encoding lacks bytes (e.g. the length prefix of an empty collection) and everything after it is shifted")
+    rep.floor("R6-encoder-writes-on-every-path", 44, n6)
     # ---- R5: the raw-copy shortcut is taken only for types whose memory image is their canonical encoding -----------------
     # (shared with C10: a wrong classification makes encode() emit padded memory bytes instead of the canonical encoding)
     import C10
